@@ -45,7 +45,16 @@ MUT = [
        '                    if value is None:\n                        value = "None"\n                    if isinstance(value, str):\n                        value = value.strip()\n                    line.append(value)\n                csv_writer.writerow(line)  # type: ignore\n\n        out = StringIO(newline="")')]),
     ('transpose_keeps_row_wrapper_cache', True, 'transpose (repaired form: rows and columns deleted one by one) without the reset of the cached row wrappers: visible only after an earlier cell-level read and a later write through the stale wrapper',
      [(TB, '                element.parent.delete(element)\n            self._indexes["_tmap"] = {}\n            self._indexes["_cmap"] = {}\n', '                element.parent.delete(element)\n')]),
+    ('merge_collects_bottom_up', True, 'set_span(merge=True) collects the values from the last row up: the concatenation order changes (visible only with two different values in different rows)',
+     [(TB, '            val_list = []\n            for row in cells:\n                for cell in row:\n                    if cell.is_empty(aggressive=True):', '            val_list = []\n            for row in reversed(cells):\n                for cell in row:\n                    if cell.is_empty(aggressive=True):')]),
+    ('transpose_area_no_blanking', True, 'transpose(coord) of a non-square area without clearing the source rectangle',
+     [(TB, '            if w != h:\n                nones = [[None] * w for i in range(h)]', '            if False:\n                nones = [[None] * w for i in range(h)]')]),
+    ('import_csv_no_type_guess', True, 'import_from_csv stores every field as a string',
+     [(TB, '            cell = Cell(_get_python_value(value, encoding))\n', '            cell = Cell(value)\n')]),
     # behaviour-preserving rewrites
+    ('rw_merge_chain', False, 'rewrite: the merge loop over itertools.chain.from_iterable(cells)',
+     [(TB, '            for row in cells:\n                for cell in row:\n                    if cell.is_empty(aggressive=True):\n                        continue\n                    val = cell.get_value()\n                    if val is not None:\n                        if isinstance(val, str):\n                            val.strip()\n                        if val != "":\n                            val_list.append(val)\n                        cell.clear()\n',
+       '            from itertools import chain\n            for cell in chain.from_iterable(cells):\n                if cell.is_empty(aggressive=True):\n                    continue\n                val = cell.get_value()\n                if val is None:\n                    continue\n                if val != "":\n                    val_list.append(val)\n                cell.clear()\n')]),
     ('rw_rstrip_while_loop', False, 'rewrite: rstrip step 1 as a while loop over the last row',
      [(TB, '        for row in reversed(self._get_rows()):\n            if row.is_empty(aggressive=aggressive):\n                row.parent.delete(row)  # type: ignore\n            else:\n                break\n        # Step 2',
        '        remaining = self._get_rows()\n        while remaining and remaining[-1].is_empty(aggressive=aggressive):\n            last = remaining.pop()\n            last.parent.delete(last)  # type: ignore\n        # Step 2')]),
